@@ -8,6 +8,7 @@ package main
 //       | e ? e : e   (written  ite(c, a, b))
 
 import (
+	"strconv"
 	"fmt"
 	"strings"
 	"unicode"
@@ -120,12 +121,23 @@ func lex(s string) ([]tok, error) {
 		case c == '"':
 			j := i + 1
 			for j < len(s) && s[j] != '"' {
+				if s[j] == '\\' {
+					j++
+				}
 				j++
 			}
 			if j >= len(s) {
 				return nil, fmt.Errorf("unterminated string")
 			}
-			toks = append(toks, tok{"str", s[i+1 : j]})
+			lit := s[i+1 : j]
+			if strings.Contains(lit, "\\") {
+				u, err := strconv.Unquote("\"" + lit + "\"")
+				if err != nil {
+					return nil, fmt.Errorf("bad string literal %q: %v", lit, err)
+				}
+				lit = u
+			}
+			toks = append(toks, tok{"str", lit})
 			i = j + 1
 		default:
 			ops := []string{"<==>", "==>", "::", "{", "}", "==", "!=", "<=", ">=", "&&", "||", "<<", ">>", "<", ">", "+", "-", "*", "/", "%", "!", "(", ")", "[", "]", ",", ".", "?", ":"}
@@ -387,4 +399,46 @@ func (p *parser) postfix() (Expr, error) {
 		}
 	}
 	return e, nil
+}
+
+// freeIdents collects the identifiers of e that are not bound by a quantifier / split inside e.
+func freeIdents(e Expr, bound map[string]bool, out map[string]bool) {
+	switch x := e.(type) {
+	case EIdent:
+		if !bound[x.Name] {
+			out[x.Name] = true
+		}
+	case ESel:
+		freeIdents(x.X, bound, out)
+	case ECall:
+		for _, a := range x.Args {
+			freeIdents(a, bound, out)
+		}
+	case EIndex:
+		freeIdents(x.X, bound, out)
+		freeIdents(x.I, bound, out)
+	case EUnary:
+		freeIdents(x.X, bound, out)
+	case EBinary:
+		freeIdents(x.X, bound, out)
+		freeIdents(x.Y, bound, out)
+	case ESplit:
+		nb := map[string]bool{x.Var: true}
+		for k := range bound {
+			nb[k] = true
+		}
+		freeIdents(x.Body, nb, out)
+	case EQuant:
+		nb := map[string]bool{}
+		for k := range bound {
+			nb[k] = true
+		}
+		for _, v := range x.Vars {
+			nb[v.Name] = true
+		}
+		for _, t := range x.Triggers {
+			freeIdents(t, nb, out)
+		}
+		freeIdents(x.Body, nb, out)
+	}
 }
